@@ -399,6 +399,24 @@ def run(F, rep):
     if n_n3 < 80:
         raise AnalysisBroken('C01.N3: only %d dereferences of null-tested, not reassigned locals (118 confirmed)' % n_n3)
 
+    rep.rule('C01.L1', 'libxml2 parses untrusted text with its safety limits on: the options handed to xmlCtxtReadDoc/xmlReadMemory/xmlReadDoc are 0 or taken from a harmless set; XML_PARSE_HUGE (no limits: entity amplification), '
+                       'XML_PARSE_NOENT/DTDLOAD/DTDATTR/XINCLUDE (entity substitution, external subsets) are not used')
+    SAFE_OPTS = {'XML_PARSE_NOBLANKS', 'XML_PARSE_NONET', 'XML_PARSE_NOERROR', 'XML_PARSE_NOWARNING', 'XML_PARSE_PEDANTIC', 'XML_PARSE_COMPACT', 'XML_PARSE_NOCDATA'}
+    n_l = 0
+    for g in F.funcs.values():
+        if not re.search(r'xml\w*\.cpp$', g.file):
+            continue
+        for c in g.walk():
+            if c.get('k') == 'Call' and cname(c) in ('xmlCtxtReadDoc', 'xmlCtxtReadMemory', 'xmlReadMemory', 'xmlReadDoc', 'xmlCtxtReadFile', 'xmlReadFile', 'xmlCtxtUseOptions'):
+                n_l += 1
+                opt = c['c'][-1]
+                flags = {x['n'] for x in walk(opt) if x.get('k') == 'Ref' and x.get('dk') == 'enumc'}
+                lit0 = opt.get('k') == 'Int' and opt.get('v') == 0
+                rep.check(lit0 or (flags and flags <= SAFE_OPTS and not any(x.get('k') == 'Ref' and x.get('dk') != 'enumc' for x in walk(opt))), 'C01.L1', '%s|%s' % (g.short, cname(c)), g.where(c),
+                          '%s parses with options `%s`: %s switch off the limits that protect against hostile documents' % (g.short, render(opt)[:50], sorted(flags - SAFE_OPTS) or 'non-constant options'), 'options %s' % (render(opt)[:30]))
+    if n_l < 2:
+        raise AnalysisBroken('C01.L1: libxml2 parse calls vanished (%d found, 2 confirmed)' % n_l)
+
     rep.rule('C01.N2', 'a model taken out of the importer\'s library (which the public API can fill with null models) is null-tested before fetchModel hands it to ImportSource::setModel and reports success; '
                        'resolveImports dereferences the model of every import source whose fetch succeeded')
     fm_ = F.fn1('Importer::ImporterImpl::fetchModel')
